@@ -85,13 +85,35 @@ pub fn run(tier: &str) -> Result<Report, String> {
         rep.add_count("failing_formulae", bad.len() as u64);
         rep.violations.extend(bad.into_iter().take(40));
     }
+    // steady-state-free networks of the all-2-variable family: all formulae up to 3 (thorough 4) nodes
+    let (all2, info) = all2_nets(3, if tier == "quick" { Some(3) } else { None })?;
+    rep.set("all_2_variable_networks", info);
+    let mut alpha2 = Alphabet::plain(2, 3);
+    alpha2.bi = crate::formulas::ALL_BI.to_vec();
+    let mut g2 = Gen::new(alpha2);
+    let fs2 = g2.closed_up_to(if tier == "quick" { 3 } else { 4 });
+    let mut n_free2 = 0u64;
+    for b in all2.iter().filter(|b| b.cols.iter().all(|c| c.steady.iter().all(|s| !*s))) {
+        crate::sem::note_network_light(&mut rep, b);
+        let ctx = NetCtx::new(b.clone(), Labels::default(), "none");
+        let bad: Vec<Violation> = fs2
+            .par_iter()
+            .filter_map(|f| check(&ctx, f).map(|w| Violation { case: json!({"kind": "unsafe_ex", "net": b.spec, "aeon": b.aeon, "formula": f, "text": f.show(&ctx.user)}), what: format!("formula {} on {} [{}]: {w}", f.show(&ctx.user), b.name, b.aeon.replace('\n', "; ")), size: f.size() }))
+            .collect();
+        n_free2 += 1;
+        rep.evaluations += fs2.len() as u64 * 2;
+        rep.distinct_nontrivial += fs2.len() as u64;
+        rep.add_count("all_formulae_on_steady_state_free_networks", fs2.len() as u64);
+        rep.violations.extend(bad.into_iter().take(5));
+    }
+    rep.set("steady_state_free_networks_of_the_2_variable_family", json!(n_free2));
     if steady_free.is_empty() {
         return Err("no steady-state-free network in the family".into());
     }
     rep.set("steady_state_free_networks", json!(steady_free));
     rep.sample(json!({"network": "asy2", "formula": "(!{x}: (AG (EF {x})))", "fragment": true}));
     rep.sample(json!({"network": "cyc3", "formula": "(!{x}: (AX (AF {x})))", "fragment": false, "why": "cyc3 has no steady state in any colour (decided by the independent transition systems)"}));
-    rep.rule = format!("core networks: on networks where the independent transition systems have no steady state in any colour ({steady_free:?}) ALL closed formulae with <= {m_free} nodes over all operators (+ templates); on the others all closed formulae with <= {m_frag} nodes over the loop-insensitive fragment {{~ & | ^ => <=> EF AG EU AW ! @ 3 V}} (+ fragment templates): model_check_formula_unsafe_ex must return the same raw set as model_check_formula_dirty (BDD equality). distinct_nontrivial = number of (formula, network) pairs");
+    rep.rule = format!("core networks and the steady-state-free networks of the de-duplicated all-2-variable family (all formulae with <= 3, thorough 4, nodes): on networks where the independent transition systems have no steady state in any colour ({steady_free:?}) ALL closed formulae with <= {m_free} nodes over all operators (+ templates); on the others all closed formulae with <= {m_frag} nodes over the loop-insensitive fragment {{~ & | ^ => <=> EF AG EU AW ! @ 3 V}} (+ fragment templates): model_check_formula_unsafe_ex must return the same raw set as model_check_formula_dirty (BDD equality). distinct_nontrivial = number of (formula, network) pairs");
     rep.assumptions.push("the standard evaluation itself is validated against the oracle by C01/C13".into());
     Ok(rep)
 }
